@@ -667,9 +667,9 @@ Qed.
 Lemma EInv_irrel sh l s d s' d' : EInv (mkCfg sh l s d) -> EInv (mkCfg sh l s' d').
 Proof. intros H; exact H. Qed.
 
-Lemma sched_step_g cfg cfg' : EInv cfg -> sched_step cfg = Some cfg' -> EInv cfg'.
+Lemma sched_step0_g cfg cfg' : EInv cfg -> sched_step0 cfg = Some cfg' -> EInv cfg'.
 Proof.
-  intros HE. unfold sched_step. destruct (dead cfg); [discriminate|].
+  intros HE. unfold sched_step0. destruct (dead cfg); [discriminate|].
   destruct (next_from_schedule cfg (sched cfg)) as [pick rest].
   assert (HE1 : EInv (mkCfg (shs cfg) (ths cfg) rest false)) by exact HE.
   set (cfg1 := mkCfg (shs cfg) (ths cfg) rest false) in *.
@@ -690,6 +690,35 @@ Proof.
       destruct (th_enabled cfg2 w); intros E; injection E as <-; [apply perform_g|]; exact HE2.
     + destruct (all_finished cfg1); [discriminate|]. intros E. injection E as <-.
       destruct HE1 as [HG HF]. split; [|exact HF]. cbn [shs ths]. eapply GI_eq; [|exact HG]. repeat split.
+Qed.
+
+Lemma unnotified_g cfg tok c : EInv cfg -> unnotified cfg tok = Some c -> EInv c.
+Proof.
+  intros [HG HF] H. unfold unnotified in H.
+  destruct (Nat.leb 2000 tok).
+  - destruct (nth_error (ths cfg) (tok - 2000)) as [wt|] eqn:EN; [|discriminate].
+    pose proof (proj1 (Forall_forall _ _) HF wt (nth_error_In _ _ EN)) as HW. unfold th_wg in HW.
+    destruct (status wt) as [|timed| |] eqn:Est; try discriminate. injection H as <-. unfold EInv. cbn [shs ths].
+    apply (EInv_replace (shs cfg) (ths cfg) (tok - 2000) wt (shs cfg) (mkTh (code wt) (calls wt) (lo_to (lo wt) false) TWoken) HG HF EN).
+    + intros a b Hab. cbn [lo]. eapply GI_lo; [apply lo_geq_to|exact Hab].
+    + unfold th_wg. cbn [status code lo]. apply HW.
+  - destruct (Nat.leb 1000 tok); [|discriminate].
+    destruct (nth_error (ths cfg) (tok - 1000)) as [wt|] eqn:EN; [|discriminate].
+    pose proof (proj1 (Forall_forall _ _) HF wt (nth_error_In _ _ EN)) as HW. unfold th_wg in HW.
+    destruct (status wt) as [|timed| |] eqn:Est; try discriminate. destruct timed; [|discriminate]. injection H as <-. unfold EInv. cbn [shs ths].
+    apply (EInv_replace (shs cfg) (ths cfg) (tok - 1000) wt (sh_log (shs cfg) (CTimeout (tok - 1000)))
+                        (mkTh (code wt) (calls wt) (lo_to (lo wt) true) TWoken) HG HF EN).
+    + intros a b Hab. cbn [lo]. eapply GI_eq; [|eapply GI_lo; [apply lo_geq_to|exact Hab]]. repeat split.
+    + unfold th_wg. cbn [status code lo]. apply HW.
+Qed.
+
+Lemma sched_step_g cfg cfg' : EInv cfg -> sched_step cfg = Some cfg' -> EInv cfg'.
+Proof.
+  intros HE. unfold sched_step. destruct (dead cfg) eqn:Ed; [discriminate|].
+  assert (H0 : sched_step0 cfg = Some cfg' -> EInv cfg') by (apply sched_step0_g; exact HE).
+  destruct (sched cfg) as [|tok rest]; [exact H0|].
+  destruct (unnotified _ tok) as [c|] eqn:EU; [|exact H0].
+  intros E. injection E as <-. eapply unnotified_g; [|exact EU]. exact HE.
 Qed.
 
 Lemma run_sched_g fuel : forall cfg, EInv cfg -> EInv (run_sched fuel cfg).
